@@ -22,7 +22,9 @@ Inductive op :=
 | OReadN (n:N) (lo hi:bound)
 | ONLines (lo hi:bound)
 | OLastLine | OLen | OIsEmpty | ORange | OPayloadSize
-| OFsTrunc (f:fname) (n:N) | OFsRm (f:fname) | OFsWrite (f:fname) (b:list byte) | OFsAppend (f:fname) (b:list byte).
+| OFsTrunc (f:fname) (n:N) | OFsRm (f:fname) | OFsWrite (f:fname) (b:list byte) | OFsAppend (f:fname) (b:list byte)
+| OFsPatch (f:fname) (from_end:N) (b:list byte)
+| OFsCut (f:fname) (n:N).
 
 Inductive out :=
 | RUnit
